@@ -1,7 +1,8 @@
 #!/usr/bin/env python3
 """Confirm a seeded change and run the checks against it.
 
-usage: tools/seedcheck.py <seed id e.g. C05a> <diff> <demo.py> <agent meta.json> [--props C05,C04] [--tier quick]
+usage: tools/seedcheck.py <seed id e.g. C05a> <diff> <demo.py> <agent meta.json> [--props=C05,C04] [--tier=quick]
+       tools/seedcheck.py <seed id>            (re-check a seed kept under /verif/seeded/<id>/)
 
 1. confirmation in a scratch worktree (never /repo): the diff applies, the whole test-suite still
    passes, the demo exits 1 with the change and 0 without it;
@@ -24,15 +25,26 @@ def sh(cmd, **kw):
 
 
 def main():
-    sid, diff, demo, meta = sys.argv[1:5]
+    recheck = len([a for a in sys.argv[1:] if not a.startswith("--")]) == 1
+    if recheck:
+        # re-run confirmation and detection for a seed already kept under /verif/seeded/<id>/
+        sid = sys.argv[1]
+        d0 = os.path.join(VERIF, "seeded", sid)
+        diff, demo, meta = os.path.join(d0, "patch.diff"), os.path.join(d0, "demo.py"), os.path.join(d0, "meta.json")
+        rest = sys.argv[2:]
+    else:
+        sid, diff, demo, meta = sys.argv[1:5]
+        rest = sys.argv[5:]
     props = [sid[:3]]
     tier = "quick"
-    for a in sys.argv[5:]:
+    for a in rest:
         if a.startswith("--props="):
             props = a.split("=", 1)[1].split(",")
         if a.startswith("--tier="):
             tier = a.split("=", 1)[1]
     agent_meta = json.load(open(meta)) if os.path.exists(meta) else {}
+    if recheck:
+        agent_meta = {"summary": agent_meta.get("summary"), "needs": agent_meta.get("needs_to_manifest"), "files": agent_meta.get("files")}
     wt = "/tmp/seedconfirm_%s" % sid
     sh("git -C /repo worktree remove --force %s" % wt)
     sh("rm -rf %s" % wt)
@@ -85,8 +97,9 @@ def main():
     res["detected"] = any(v["violations"] > 0 for v in res["checks"].values())
     d = os.path.join(VERIF, "seeded", sid)
     os.makedirs(d, exist_ok=True)
-    shutil.copy(diff, os.path.join(d, "patch.diff"))
-    shutil.copy(demo, os.path.join(d, "demo.py"))
+    if not recheck:
+        shutil.copy(diff, os.path.join(d, "patch.diff"))
+        shutil.copy(demo, os.path.join(d, "demo.py"))
     m = {"breaks_property": sid[:3], "summary": agent_meta.get("summary"), "needs_to_manifest": agent_meta.get("needs"),
          "files": agent_meta.get("files"), "origin": "independent sub-agent given only the property text and a scratch worktree",
          "confirmed_by": {"command": "tools/seedcheck.py (scratch worktree: apply, full pytest suite, demo with/without change)",
